@@ -216,11 +216,11 @@ def multiset_cooccurrence(corpus, windows, normalize_windows=True, kept=None, ma
         msets = [apply_vocabulary(list(m), kept_set, mask) for m in doc]
         for d, ms in enumerate(msets):
             for j, t in enumerate(ms):
+                if nullify and mask is not None and t == mask:
+                    continue        # the mask contributes nothing: its row is zero
                 per_window = []
                 for w in windows:
                     r = w["radius"]
-                    if nullify and mask is not None and False:
-                        pass
                     if w["before"]:
                         idx = list(range(d, max(d - r, 0) - 1, -1))
                     else:
@@ -280,3 +280,141 @@ def compare_cells(got, exp, rtol=1e-5, atol=1e-7):
             if len(bad) >= 4:
                 break
     return bad or None
+
+
+# ---------------------------------------------------------------------------------------------
+# EM refinement (property C11): dense float64 transcription of the documented procedure
+# ---------------------------------------------------------------------------------------------
+
+def _normalise_columns(cells):
+    sums = {}
+    for (r, c), v in cells.items():
+        sums[c] = sums.get(c, 0.0) + abs(v)
+    return {(r, c): (v / sums[c]) for (r, c), v in cells.items() if sums[c] > 0}
+
+
+def _threshold(cells, eps):
+    return {k: v for k, v in cells.items() if not (v < eps) and v != 0}
+
+
+def em_chain(corpus, windows, n_iter, epsilon, normalize_windows=True, kind="token", **kw):
+    """Returns the list of matrices [after initial normalise/threshold, after iteration 1, ...] and
+    per-iteration bookkeeping of the mass each row received (must equal its number of contributing
+    occurrences).  kind: token | timed | ngram | multiset."""
+    if kind == "multiset":
+        cells, rows, labels, amb = multiset_cooccurrence(corpus, windows, normalize_windows, **kw)
+    else:
+        cells, rows, labels, amb = token_cooccurrence(corpus, windows, normalize_windows, timed=(kind == "timed"), **kw)
+    if n_iter == 0 and epsilon == 0:
+        return [cells], rows, labels, amb
+    m = _threshold(_normalise_columns(cells), epsilon)
+    chain = [m]
+    occ = list(_occurrences(corpus, windows, kind, **kw))
+    for _ in range(n_iter):
+        post = {}
+        for row, per_window in occ:
+            p = []
+            for w, (ctx, ker) in zip(windows, per_window):
+                for c, k in zip(ctx, ker):
+                    key = (row, w["prefix"] + str(c))
+                    p.append((key, k * m.get(key, 0.0) if k > 0 else 0.0))
+            tot = sum(x for _, x in p)
+            if tot > 0:
+                for key, x in p:
+                    if x > 0:
+                        post[key] = post.get(key, 0.0) + x / tot
+        m = _threshold(_normalise_columns(post), epsilon)
+        chain.append(m)
+    return chain, rows, labels, amb
+
+
+def _occurrences(corpus, windows, kind, kept=None, mask=None, nullify=False, freq=None, ngram_size=1,
+                 kept_ngrams=None):
+    """Yield (row_label, [(contexts, mix*kernel weights) per window]) for every occurrence, exactly as in
+    the n_iter=0 definition but without window normalisation."""
+    timed = kind == "timed"
+    if kind == "multiset":
+        all_tokens = [t for d in corpus for m in d for t in m]
+        kept_set = set(all_tokens) if kept is None else set(kept)
+        for doc in corpus:
+            msets = [apply_vocabulary(list(m), kept_set, mask) for m in doc]
+            for d, ms in enumerate(msets):
+                for j, t in enumerate(ms):
+                    if nullify and mask is not None and t == mask:
+                        continue
+                    per_window = []
+                    for w in windows:
+                        r = w["radius"]
+                        idx = list(range(d, max(d - r, 0) - 1, -1)) if w["before"] else list(range(d, min(d + r, len(msets) - 1) + 1))
+                        ctx, ker = [], []
+                        for m_dist, q in enumerate(idx):
+                            for jj, c in enumerate(msets[q]):
+                                k = 1.0 if w["kernel"] == "flat" else w["kargs"].get("power", 0.9) ** m_dist
+                                if (q == d and jj == j) or (nullify and mask is not None and c == mask):
+                                    k = 0.0
+                                ctx.append(c)
+                                ker.append(k)
+                        if w["kargs"].get("normalize", False):
+                            s = sum(ker)
+                            if s > 0:
+                                ker = [x / s for x in ker]
+                        per_window.append((ctx, [w["mix"] * x for x in ker]))
+                    yield t, per_window
+        return
+    tok = (lambda x: x[0]) if timed else (lambda x: x)
+    all_tokens = [tok(x) for s in corpus for x in s]
+    kept_set = set(all_tokens) if kept is None else set(kept)
+    labels = vocabulary(all_tokens, kept_set, mask)
+    if freq is None:
+        n = len(all_tokens)
+        freq = {t: all_tokens.count(t) / n for t in set(all_tokens)}
+    seqs = []
+    for s in corpus:
+        if timed:
+            seqs.append([(t, tm) for (t, tm) in s if t in kept_set] if mask is None else
+                        [((t if (t in kept_set and t != mask) else mask), tm) for (t, tm) in s])
+        else:
+            seqs.append(apply_vocabulary(list(s), kept_set, mask))
+    delta = None
+    if timed:
+        tot, cnt = 0.0, 0
+        for s in seqs:
+            for a, b in zip(s, s[1:]):
+                tot += b[1] - a[1]
+                cnt += 1
+        delta = tot / (cnt if cnt else 1)
+    amb = []
+    if ngram_size > 1:
+        grams = sorted({tuple(tok(x) for x in s[i:i + ngram_size]) for s in seqs for i in range(len(s) - ngram_size + 1)})
+        if kept_ngrams is not None:
+            grams = [g for g in grams if g in kept_ngrams]
+        row_labels = ["_".join(str(t) for t in g) for g in grams]
+        radii = [radii_for(w, row_labels, {g: 1.0 for g in row_labels}, None, False, amb) if w["wfun"] == "fixed" else None for w in windows]
+    else:
+        row_labels = labels
+        radii = [radii_for(w, labels, freq, mask, nullify, amb) for w in windows]
+    for s in seqs:
+        toks = [tok(x) for x in s]
+        times = [x[1] for x in s] if timed else None
+        for p in range(ngram_size - 1, len(s)):
+            if ngram_size > 1:
+                row = "_".join(str(t) for t in toks[p - ngram_size + 1:p + 1])
+                if row not in row_labels:
+                    continue
+                first, last = p - ngram_size + 1, p
+            else:
+                row = toks[p]
+                first = last = p
+            per_window = []
+            for wi, w in enumerate(windows):
+                r = radii[wi][row]
+                if w["before"]:
+                    pos = list(range(first - 1, max(first - r, 0) - 1, -1))
+                    anchor = first
+                else:
+                    pos = list(range(last + 1, min(last + r, len(s) - 1) + 1))
+                    anchor = last
+                ctx = [toks[q] for q in pos]
+                dists = [abs(times[q] - times[anchor]) for q in pos] if timed else None
+                per_window.append((ctx, kernel_weights(w, ctx, mask, nullify, dists, delta)))
+            yield row, per_window
